@@ -135,24 +135,28 @@ def forbidden_scan(modules):
     return hits
 
 
-def theorem_names(props_module, prefix):
-    f = module_files([props_module])[0]
+def theorem_names(props_modules, prefix):
+    if isinstance(props_modules, str):
+        props_modules = [props_modules]
     names = []
-    if f.exists():
-        for line in _strip_comments(f.read_text()).splitlines():
-            m = re.match(r'\s*theorem\s+(' + re.escape(prefix) + r'_[\w\']+)', line)
-            if m:
-                names.append(m.group(1))
+    for f in module_files(props_modules):
+        if f.exists():
+            for line in _strip_comments(f.read_text()).splitlines():
+                m = re.match(r'\s*theorem\s+(' + re.escape(prefix) + r'_[\w\']+)', line)
+                if m and m.group(1) not in names:
+                    names.append(m.group(1))
     return names
 
 
-def audit(props_module, prefix):
+def audit(props_modules, prefix):
     """`#print axioms` for every property theorem. Returns dict name -> list of axioms | None (missing)."""
-    names = theorem_names(props_module, prefix)
+    if isinstance(props_modules, str):
+        props_modules = [props_modules]
+    names = theorem_names(props_modules, prefix)
     adir = LEAN_DIR / '.audit'
     adir.mkdir(exist_ok=True)
     f = adir / f'{prefix}.lean'
-    f.write_text(f'import {props_module}\n' + ''.join(f'#print axioms {n}\n' for n in names))
+    f.write_text(''.join(f'import {m}\n' for m in props_modules) + ''.join(f'#print axioms {n}\n' for n in names))
     p = subprocess.run(['lake', 'env', 'lean', str(f)], cwd=LEAN_DIR, capture_output=True, text=True,
                        timeout=1200)
     out = p.stdout + p.stderr
@@ -251,10 +255,12 @@ class Result:
 
 
 def load_known_findings():
-    f = ROOT / 'known_findings.json'
-    if not f.exists():
-        return []
-    return json.loads(f.read_text()).get('findings', [])
+    """known_findings/<id>.json: {"findings": [{property, signature, what, witness, status}], "fixed": [...]}.
+    Committed; never written at run time."""
+    out = []
+    for f in sorted((ROOT / 'known_findings').glob('*.json')):
+        out += json.loads(f.read_text()).get('findings', [])
+    return out
 
 
 def write_replay(prop, payload):
